@@ -23,10 +23,5 @@ Definition mask_sound_purge_stmt : Prop :=
   forall cfg oracle o s p size, seg_ok2 s -> is_huge s = false -> mask_sound o s ->
     mask_sound (fst (segment_purge cfg oracle o s p size)) (snd (segment_purge cfg oracle o s p size)).
 
-(* repeated passes: every pending arena is eventually purged by non-forced passes (C18_arena_pass_progress and
-   C18_arena_pending_rearms give the single-pass steps; the induction over passes with max_purge_count = 2 is not done) *)
-Definition arena_eventually_purged_stmt : Prop :=
-  forall cfg oracle st (n : nat), (0 < arena_purge_delay cfg)%Z -> expiry_consistent st ->
-    exists k, forall t0, (forall a, In a (p_arenas st) -> (a_expire a <= t0)%Z) -> (p_g st <= t0)%Z ->
-      let h := map (fun i => (PCollect false, (t0 + Z.of_nat i * arena_purge_delay cfg)%Z)) (seq 0 k) in
-      forall a', In a' (p_arenas (prun cfg oracle st h)) -> a_pinned a' = false -> a_expire a' = 0%Z.
+(* (arena_eventually_purged_stmt, formerly here: proved with the hypothesis 0 <= t0 in Proofs/PurgePasses.v, theorem
+   C18_arena_eventually_purged; refuted as it stood, for a negative clock, by arena_eventually_purged_any_clock_refuted) *)
